@@ -48,4 +48,19 @@ def retsOf (cs : List CallObs) : List Ret :=
 def SpecObs (fm : Bool) (L : Nat) (cs : List CallObs) : Bool :=
   refusedIsErr cs && (!fm || Spec L (retsOf cs))
 
+/-! ### environment level: the numbers an ENVIRONMENT hands to its successive start attempts -/
+
+/-- Every number is larger than every number before it in the list. -/
+def increasingB : List Nat → Bool
+  | [] => true
+  | x :: xs => xs.all (fun y => decide (x < y)) && increasingB xs
+
+/-- Spec on one history of requests to one environment. `pubs` = per request, the run numbers it
+    published for a new run (Ev_RunEvent START_ACTIVITY/STARTED — the number assigned to
+    `currentRunNumber` and to the `run_number` variable): a request obtains at most one number,
+    and every number obtained is larger than every number obtained before in that history —
+    whatever became of the earlier attempts (cancelled by a hook, failed, stopped, ended in ERROR). -/
+def SpecEnv (pubs : List (List Nat)) : Bool :=
+  pubs.all (fun l => decide (l.length ≤ 1)) && increasingB pubs.flatten
+
 end RunNumber
